@@ -232,7 +232,8 @@ def classify_literal(r):
 
 
 def oracle_string(body):
-    """ES string value for bodies made of plain characters, single escapes, \\xHH, \\uHHHH, \\u{...}; None = do not judge"""
+    """ES string value (sloppy mode, Annex B) of a literal body: single escapes, \\xHH, \\uHHHH, \\u{...}, legacy octal, line continuations,
+    identity escapes; None = the body is no ECMAScript literal (malformed \\x / \\u, lone surrogate): not judged"""
     out = []
     i = 0
     while i < len(body):
@@ -249,12 +250,22 @@ def oracle_string(body):
             out.append(chr(int(body[i + 2:i + 4], 16))); i += 4
         elif n == "u" and re.match(r"[0-9a-fA-F]{4}", body[i + 2:i + 6]) and not (0xd800 <= int(body[i + 2:i + 6], 16) <= 0xdfff):
             out.append(chr(int(body[i + 2:i + 6], 16))); i += 6
-        else:
+        elif n in "xu":
             m = re.match(r"u\{([0-9a-fA-F]+)\}", body[i + 1:])
             if m and int(m.group(1), 16) <= 0x10ffff and not (0xd800 <= int(m.group(1), 16) <= 0xdfff):
                 out.append(chr(int(m.group(1), 16))); i += 1 + len(m.group(0))
             else:
                 return None
+        elif n in "01234567":
+            # legacy octal escape (ECMAScript Annex B): up to three digits, value at most 0o377
+            m = re.match(r"[0-3][0-7]{0,2}|[4-7][0-7]?", body[i + 1:])
+            out.append(chr(int(m.group(0), 8))); i += 1 + len(m.group(0))
+        elif n == "\r" and body[i + 2:i + 3] == "\n":
+            i += 3                                  # line continuation: contributes nothing
+        elif n in "\n\r\u2028\u2029":
+            i += 2
+        else:
+            out.append(n); i += 2                   # any other character stands for itself (8 and 9 included)
     return "".join(out)
 
 
